@@ -15,7 +15,9 @@ EXTENDS Integers, Sequences, Json, TLC
 CONSTANTS GConfigs,   \* set of configuration records
           GSizes,     \* record sizes
           MaxOps,     \* operations per behaviour
-          MaxDay      \* simulated day changes per behaviour (daily rule)
+          MaxDay,     \* simulated day changes per behaviour (daily rule)
+          GFams,      \* log files a record may be sent to ({""} = the single writer)
+          GBurst      \* size tuples of the bursts / of the records queued at Close ({} = none)
 
 VARIABLES hist, cfg, nday, fin
 
@@ -25,9 +27,20 @@ GInit == /\ cfg \in GConfigs
          /\ hist = <<[op |-> "init", cfg |-> cfg]>>
          /\ nday = 0 /\ fin = FALSE
 
-GWrite(s) == /\ ~fin /\ Len(hist) <= MaxOps
-             /\ hist' = Append(hist, [op |-> "write", size |-> s])
-             /\ UNCHANGED <<cfg, nday, fin>>
+GWrite(s, f) == /\ ~fin /\ Len(hist) <= MaxOps
+                /\ hist' = Append(hist, [op |-> "write", size |-> s, fam |-> f])
+                /\ UNCHANGED <<cfg, nday, fin>>
+
+\* several writes with no barrier between them
+GBurstOp(b, f) == /\ ~fin /\ Len(hist) <= MaxOps
+                  /\ hist' = Append(hist, [op |-> "burst", sizes |-> b, fam |-> f])
+                  /\ UNCHANGED <<cfg, nday, fin>>
+
+\* Close with these records still queued
+GCloseQ(b, f) == /\ ~fin /\ Len(hist) = MaxOps + 1
+                 /\ hist' = Append(hist, [op |-> "closeq", sizes |-> b, fam |-> f])
+                 /\ fin' = TRUE
+                 /\ UNCHANGED <<cfg, nday>>
 
 \* a day change directly after another one, or as the last operation, shows nothing new
 GDay == /\ ~fin /\ Len(hist) < MaxOps
@@ -42,7 +55,9 @@ GClose == /\ ~fin /\ Len(hist) = MaxOps + 1
           /\ fin' = TRUE
           /\ UNCHANGED <<cfg, nday>>
 
-GNext == (\E s \in GSizes : GWrite(s)) \/ GDay \/ GClose
+GNext == \/ \E s \in GSizes, f \in GFams : GWrite(s, f)
+         \/ \E b \in GBurst, f \in GFams : GBurstOp(b, f) \/ GCloseQ(b, f)
+         \/ GDay \/ GClose
 
 GSpec == GInit /\ [][GNext]_gvars
 
